@@ -23,7 +23,9 @@ def run(prog, rep, tier):
     import r_core
     apply(rep, "P2c", "stack accessors raise the underflow error exactly when they would reach below the bottom", r_core.p2c(prog), 5)
     apply(rep, "Y1", "scanner completeness", r_lex.y1(prog), 4)
-    apply(rep, "K6", "the driver does not dereference an empty argument list", r_cli.k6(prog), 1)
+    k8 = r_cli.k8(prog, tier)
+    apply(rep, "K8", "the driver never reads out of bounds or lets an exception escape, whatever the arguments yield (main() interpreted on abstract command lines incl. arguments without values)",
+          ([i for i in k8[0] if i[0] == "K8:status"], [f for f in k8[1] if f["key"] == "K8:status"]) if not getattr(k8, "broken", None) else k8, 1)
     apply(rep, "K3", "CLI maps every exception to exit status 2", r_cli.k3(prog), 10)
     apply(rep, "B5", "a null error pointer is passed only to callees that cannot report an error", r_api.b5(prog), 2)
     apply(rep, "B4", "every call-graph cycle through yyparse carries a depth bound (format-string splices re-enter the parser through the scanner)", r_api.b4(prog), 1)
